@@ -1,5 +1,5 @@
 SPECIFICATION TSpec
-INVARIANTS GeneratorOKT ImportFunctionalT ValidAcceptedT CorruptRejectedT RejectIsNoopT HeadsKnownT NoPanicT
+INVARIANTS GeneratorOKT HeaderCorruptRejectedT ImportFunctionalT ValidAcceptedT CorruptRejectedT RejectIsNoopT HeadsKnownT NoPanicT
   HeadHeaviestT TdAdditiveT HeadTdMonotoneT RestartKeepsHeadT
   CanonIsAncestryT NothingAboveHeadT RetrievableT LookupT
 POSTCONDITION TraceAccepted
